@@ -127,6 +127,14 @@ func exec(t []string) string {
 		if len(auth) > 0 {
 			req.Header["Authorization"] = auth
 		}
+		// optional trailing token hdr=<name>:<value>,… (hex): headers a client can set freely — none of them may
+		// change who the client is
+		if len(t) > 11 && strings.HasPrefix(t[11], "hdr=") {
+			for _, h := range strings.Split(t[11][4:], ",") {
+				nv := strings.SplitN(h, ":", 2)
+				req.Header.Add(us(nv[0]), us(nv[1]))
+			}
+		}
 		rec := httptest.NewRecorder()
 		switch t[1] {
 		case "A":
@@ -268,6 +276,19 @@ func gen(g *hx.Gen) {
 							emit(srv, remote, []string{"10.0.0.7"}, c, a, method, ctype)
 						}
 					}
+				}
+			}
+		}
+	}
+	// client-controlled headers that name another address: the TCP peer address alone decides
+	spoof := [][2]string{{"X-Real-IP", "127.0.0.1"}, {"X-Real-IP", "10.0.0.8"}, {"X-Real-Ip", "::1"}, {"X-Forwarded-For", "127.0.0.1"},
+		{"X-Forwarded-For", "10.0.0.8, 10.0.0.7"}, {"Forwarded", "for=127.0.0.1"}, {"Client-IP", "127.0.0.1"}, {"True-Client-IP", "10.0.0.8"},
+		{"X-Client-IP", "127.0.0.1"}, {"X-Remote-Addr", "127.0.0.1:80"}, {"Host", "localhost"}}
+	for _, srv := range []string{"A", "B"} {
+		for _, remote := range []string{"10.0.0.7:5", "[2001:db8::2]:443", "127.0.0.1:9", "10.0.0.8:1"} {
+			for _, wl := range [][]string{nil, {"10.0.0.8"}} {
+				for _, h := range spoof {
+					g.Emit("http %s %s %s %s - - - POST %s %s hdr=%s:%s", srv, hs(remote), parse(remote), fmtList(wl), hs("application/json"), media("application/json"), hs(h[0]), hs(h[1]))
 				}
 			}
 		}
